@@ -1,4 +1,4 @@
-//@serves C01 C02 C05 C10 C15
+//@serves C01 C02 C05 C10 C15 C11
 //@tier A
 //@include prelude/head.rs
 verus! {
